@@ -33,6 +33,20 @@ func C14(c *core.Ctx) {
 	c14NilElems(c)
 	c14NilPointers(c)
 	c14DocNilElems(c)
+	c14Assertions(c)
+	// R13: the rate-row matching predicates dereference no nil percentage or surcharge on any
+	// combination of present/absent members (the truth table of C02-R1 records such a use)
+	c.Rule("C14-R13", "rate-row matching predicates dereference no nil member (from the C02-R1 truth table)", 2)
+	subm := core.NewCtx("C02", c.Tier, c.Seed, c.P, c.VerifDir)
+	subm.Quiet = true
+	c02Matching(subm)
+	for _, o := range subm.Obligations() {
+		if o.Rule != "C02-R1" || !strings.HasSuffix(o.Key, "#truth-table") {
+			continue
+		}
+		deref := !o.OK && strings.Contains(o.Msg, " used while ")
+		c.ObAt("C14-R13", o.Key, o.Pos, !deref, "a combination of present and absent members makes the predicate dereference a nil pointer: "+o.Msg)
+	}
 }
 
 // nilSafeReceiver decides whether every dereference of the receiver in a
